@@ -36,6 +36,7 @@ static inline const std::vector<std::pair<std::string, std::string>> & corpus() 
 struct DocOpts {
 	bool meta = true, emails = true, notes = true, images = false, critic = true, toc = true, tables = true, html = true, math = true;
 	int blocks_min = 1, blocks_max = 12;
+	bool email_heavy = false;                 // swarm: documents that advance the obfuscation generator a long way (several autolinks)
 	std::vector<std::string> image_urls;      // for package workloads
 };
 
@@ -63,8 +64,14 @@ static inline std::string gen_doc(Rng & r, const DocOpts & o) {
 	int nb = (int)r.range(o.blocks_min, o.blocks_max);
 	for (int b = 0; b < nb; b++) {
 		unsigned k = (unsigned)r.below(26);
+		if (o.email_heavy && o.emails && r.chance(1, 3)) k = 2;
 		switch (k) {
-			case 0: d += std::string(1 + r.below(4), '#') + " " + gen_words(r, 2) + (r.chance(1, 3) ? " [lbl" + std::to_string(b) + "]" : "") + "\n\n"; break;
+			case 0: {
+				std::string img;
+				if (!o.image_urls.empty() && r.chance(1, 3)) img = " ![h](" + o.image_urls[r.below(o.image_urls.size())] + ")";      // an image inside a heading
+				d += std::string(1 + r.below(4), '#') + " " + gen_words(r, 2) + img + (r.chance(1, 3) ? " [lbl" + std::to_string(b) + "]" : "") + "\n\n";
+				break;
+			}
 			case 1: d += gen_words(r, 3) + "\n" + (r.chance(1, 2) ? "=====" : "-----") + "\n\n"; break;
 			case 2: if (o.emails) { d += "Mail <user" + std::to_string(r.below(3)) + "@example.co> and <mailto:b@c.org> " + gen_words(r, 2) + "\n\n"; break; }
 			// fallthrough
